@@ -784,6 +784,18 @@ func run(env *ev.Env, c Case) (o ev.Outcome) {
 				o.Class("accepted(empty plaintext):" + label)
 			} else {
 				o.Class("accepted:" + label)
+				// "any modification makes the read fail": a modified blob that still reads as the plaintext is
+				// tolerated only for the header fields recorded as unauthenticated (KF-C16-4: keyType, keyURI,
+				// version, segmentSize); an accepted modification anywhere else (length prefix, tink header
+				// length, salt, nonce prefix, body, tag, structure) is a violation of its own
+				unauth := strings.HasPrefix(label, "flip:keyType") || strings.HasPrefix(label, "flip:keyURI") || strings.HasPrefix(label, "flip:version") ||
+					strings.HasPrefix(label, "flip:segsize") || strings.HasPrefix(label, "segsize:")
+				if unauth && env.Known("c16.unauthenticatedHeaderFields") {
+					o.KnownHits = append(o.KnownHits, "KF-C16-4")
+				} else {
+					o.Failf("%s: the modified stored bytes were accepted: the read returned the complete plaintext without an error", desc)
+					return
+				}
 			}
 		case res.err == errNoProgress:
 			o.Failf("%s: %v (after %d bytes)", desc, res.err, len(res.data))
